@@ -44,7 +44,8 @@ Next ==
        /\ IF v = "ok" THEN TRUE ELSE PrintT(<<"VERDICT", l, v>>)
        /\ CASE e.ev = "reset" -> open' = 0 /\ n' = e.n
             [] e.ev = "arrive" /\ e.op = "write" -> open' = e.p /\ UNCHANGED n
-            [] e.ev = "done" /\ e.p = open /\ (e.op = "read" \/ (e.op = "write" /\ e.err = 1)) -> open' = 0 /\ UNCHANGED n
+            \* (a read that delivers a fragment with more of the same reply to come leaves the exchange open)
+            [] e.ev = "done" /\ e.p = open /\ ((e.op = "read" /\ e.more = 0) \/ (e.op = "write" /\ e.err = 1)) -> open' = 0 /\ UNCHANGED n
             [] OTHER -> UNCHANGED <<open, n>>
     /\ l' = l + 1
 Spec == Init /\ [][Next]_vars
